@@ -5,3 +5,5 @@ open OrxPar
 #print axioms C09_seq_find_idx
 #print axioms C09_stage_order
 #print axioms C09_seq_log
+#print axioms C09_max_by_key_is_the_last_maximum
+#print axioms C09_min_by_key_is_the_first_minimum
